@@ -39,6 +39,9 @@ CHECKS = {
  "C19": ("exploration", "bounded exhaustive operation-sequence enumeration on the real structures vs sorted-slice reference models",
          "every operation sequence up to depth 4-9 per structure over a colliding key alphabet, zip-tree ranks enumerated, against sorted-slice reference models; exhaustive within the bound",
          "bounded depth and alphabet; comparison functions assumed total orders; Go runtime trusted", "DESIGN.md §5 C19"),
+ "C20": ("exploration", "bounded exhaustive sequence enumeration (event batcher) + delay-bounded exhaustive schedule exploration of the real ReorderFetcher under a cooperative scheduler on virtual time",
+         "event batcher: every sequence up to depth 9-11 over Add/IsFull/Flush(current)/timer expiry/Flush(issued tokens) for MaxSize 1-3, with and without time-out; reorder fetcher: producer, fetches of arbitrary latency, time-out flusher and consumer threads, every schedule within 2-3 delays for 3-4 items, producer pauses enumerated: one result per input, in order, no deadlock",
+         "scheduling points at synchronisation operations only (sequentially consistent; unsynchronised accesses are not interleaved); delay bound", "DESIGN.md §5 C20"),
 }
 
 NOT_YET = "check not built yet in this round (planned, see DESIGN.md §5)"
